@@ -508,6 +508,28 @@ func (w *World) PreimageFor(hash [32]byte) ([32]byte, bool) {
 	return [32]byte{}, false
 }
 
+// Violate lets a hook report a violation found on this world (history attached).
+func (w *World) Violate(sig, what string) { w.violate(sig, what) }
+
+// Intent returns script entry k and its lnd HTLC id (valid once sent).
+func (w *World) Intent(k int) (in Intent, id uint64, sent bool) {
+	return w.h[k].Intent, w.h[k].id, w.h[k].sent
+}
+
+// Dust returns party i's dust limit in satoshi.
+func (w *World) Dust(i int) int64 { return w.pt[i].dust }
+
+// Opener returns the index of the channel opener.
+func (w *World) Opener() int {
+	if w.P.OpenerB {
+		return 1
+	}
+	return 0
+}
+
+// LastRevoked is the highest own height whose secret party i has released (-1: none).
+func (w *World) LastRevoked(i int) int64 { return w.pt[i].lastRevoked }
+
 func (w *World) violate(sig, what string) {
 	if w.report != nil {
 		w.report(sig, what, w.Hist(), w.P)
